@@ -77,6 +77,11 @@ def grid(tier):
                     cases.append({"command": "compress", "state": state, "flags": flags, "archive": inp,
                                   "variant": variant, "extra": []})
     if tier == "quick":
+        # no extra option may weaken the "output already exists" refusal
+        for command in ("clone-local", "clone-http"):
+            for state in ("empty", "shorter", "longer", "other"):
+                cases.append({"command": command, "state": state, "flags": [], "archive": "valid",
+                              "variant": "A", "extra": ["--verify-output"]})
         # the device-too-small refusal must compare with the SOURCE size: a compressible source whose
         # archive is much smaller than the device, in the quick tier as well
         for command in ("clone-local", "clone-http"):
